@@ -159,3 +159,5 @@ def run(ctx, tier: str, seed: int) -> None:
                       f"expressions x entered inputs as above x segment expression {SEGMENT_EXPRESSIONS} x parent "
                       f"status None/IS_REQUIRED/IS_OPTIONAL/IS_FORBIDDEN x {len(cers)} content evaluation results "
                       f"(flag alternating)")
+    from bounded import valhist
+    valhist.run_histories(ctx, tier, seed + 17, SEGMENT_EXPRESSIONS + ["Muss", "Kann [2]", "Soll [1] U [3]"], entry_pool, cers)
